@@ -9,6 +9,7 @@ import (
 	"testing"
 
 	"github.com/bluenviron/gomavlib/v3/pkg/dialect"
+	"github.com/bluenviron/gomavlib/v3/pkg/dialects/common"
 	"github.com/bluenviron/gomavlib/v3/pkg/frame"
 	"github.com/bluenviron/gomavlib/v3/pkg/message"
 	"github.com/bluenviron/gomavlib/v3/pkg/x25"
@@ -513,7 +514,100 @@ func TestC02(t *testing.T) {
 			})
 		}
 	}
+	c02twins(rep, vh.Sub(seed, "c02-twins"))
 	rep.Floor("damaged_streams", 1000)
 	rep.Floor("valid_frames", 50)
 	rep.Floor("long_chunked_streams", 20)
+	rep.Floor("twin_dialect_frames", 100)
+}
+
+// c02twins: two dialects that define ids 0 and 66 differently (hence different CRC_EXTRA values), one reader each, used
+// in alternation within one process. A frame sealed for one dialect must be delivered by that dialect's reader and
+// rejected by the other's, whichever reader met the id first.
+func c02twins(rep *vh.Report, r *vh.RNG) {
+	mk := func(msgs ...message.Message) *gateEnv {
+		var infos []*msgInfo
+		for _, m := range msgs {
+			mi := &msgInfo{Name: reflect.TypeOf(m).Elem().Name(), Msg: m, Type: reflect.TypeOf(m).Elem()}
+			l, err := ref.LayoutOf(mi.Type)
+			if err != nil {
+				rep.HarnessError(err.Error())
+				return nil
+			}
+			mi.Layout = l
+			infos = append(infos, mi)
+		}
+		g, err := newGateEnv(infos)
+		if err != nil {
+			rep.HarnessError(err.Error())
+			return nil
+		}
+		return g
+	}
+	envs := []*gateEnv{mk(&common.MessageHeartbeat{}, &common.MessageRequestDataStream{}), mk(&MessageTwinZero{}, &MessageTwinSixtySix{})}
+	if envs[0] == nil || envs[1] == nil {
+		return
+	}
+	names := []string{"standard", "twin"}
+	// one long-lived reader per dialect, fed frame by frame
+	type rdr struct {
+		buf *bytes.Buffer
+		rd  *frame.Reader
+	}
+	var rds []*rdr
+	for _, e := range envs {
+		b := &bytes.Buffer{}
+		rd := &frame.Reader{ByteReader: b, DialectRW: e.drw}
+		if err := rd.Initialize(); err != nil {
+			rep.HarnessError(err.Error())
+			return
+		}
+		rds = append(rds, &rdr{b, rd})
+	}
+	for i := 0; i < 300; i++ {
+		id := []uint32{0, 66}[i%2]
+		sealedFor := (i / 2) % 2
+		if i < 4 {
+			sealedFor = []int{0, 1, 1, 0}[i] // id 0 first met with the standard definition, id 66 first with the twin's
+		}
+		mi := envs[sealedFor].layouts[id]
+		s, val := validFrame(r, mi, 1+r.Intn(2), 0, false, nil)
+		wire := ref.Serialize(s)
+		for ri := range rds {
+			rep.Eval(1)
+			rep.Count("twin_dialect_frames", 1)
+			rds[ri].buf.Write(wire)
+			var fr frame.Frame
+			var err error
+			guard(rep, "kind=panic", func() interface{} { return vh.Hex(wire) }, func() { fr, err = rds[ri].rd.Read() })
+			wit := map[string]interface{}{"frame": vh.Hex(wire), "sealed_for_dialect": names[sealedFor], "reader_dialect": names[ri], "id": id, "index": i}
+			if ri == sealedFor {
+				if err != nil {
+					rep.Violation("kind=undelivered msg=twin", fmt.Sprintf("a valid frame of the %s dialect was rejected by that dialect's reader while a reader of another dialect defining id %d is in use: %v", names[ri], id, err), wit)
+					return
+				}
+				m := frameMessage(fr)
+				canon := mi.Layout.Canonical(val, s.Version == 2)
+				if reflect.TypeOf(m) != canon.Type() {
+					rep.Violation("kind=undelivered msg=twin", fmt.Sprintf("delivered as %T", m), wit)
+					return
+				}
+				if eq, d := mi.Layout.BitEqual(reflect.ValueOf(m), canon); !eq {
+					rep.Violation("kind=undelivered msg=twin", "delivered with a different value in field "+d, wit)
+					return
+				}
+			} else if err == nil {
+				rep.Violation("kind=delivered msg=twin", fmt.Sprintf("a frame whose checksum is correct only for the %s dialect's definition of id %d was delivered by the %s dialect's reader", names[sealedFor], id, names[ri]), wit)
+				return
+			} else {
+				// the rejected frame's bytes are gone from the reader; drain what a resynchronising reader may have kept
+				for rds[ri].buf.Len() > 0 {
+					if _, e2 := rds[ri].rd.Read(); e2 == nil {
+						rep.Violation("kind=delivered msg=twin", "the tail of a rejected frame was delivered as a frame", wit)
+						return
+					}
+				}
+			}
+		}
+	}
 }
